@@ -64,6 +64,17 @@ fn main() {
             let stdin = std::io::stdin();
             run_lines(stdin.lock().lines().map(|l| l.unwrap()));
         },
+        "child-limit" => {
+            // child process of `wr limit`: apply the file size limit, ignore SIGXFSZ, run the writer recipe
+            let bytes: u64 = args[2].parse().unwrap();
+            unsafe {
+                libc::signal(libc::SIGXFSZ, libc::SIG_IGN);
+                let lim = libc::rlimit { rlim_cur: bytes, rlim_max: bytes };
+                libc::setrlimit(libc::RLIMIT_FSIZE, &lim);
+            }
+            let toks: Vec<&str> = args[3].split_whitespace().collect();
+            println!("{}", exec_ser::exec_writer(&toks));
+        },
         "replay" => {
             let f = std::fs::File::open(&args[2]).expect("cannot open replay file");
             run_lines(std::io::BufReader::new(f).lines().map(|l| l.unwrap()));
